@@ -53,10 +53,15 @@ def plan_c20(tier, seed):
     if tier == "quick":
         runs = [Run(cm, ["--seed=%d" % seed, "--families=1", "--ops=20000"], env=ENV)]
         runs += [Run(cm, ["--seed=%d" % (seed * 50 + i), "--families=0", "--ops=20000"], env=ENV) for i in range(1, 5)]
-        return runs + conn_runs("c20", tier, seed, 200, 0, quick_configs=["default", "ignored", "set", "none"])
+        # the latency / pull-back scenarios of C23 (latency up to 499, events moved back by several hundred events) are also
+        # judged by the end to end CSA#1 monitor (a seeded change that corrupts the channel index in a pull-back was only
+        # seen by C23 before)
+        return (runs + conn_runs("c20", tier, seed, 200, 0, quick_configs=["default", "ignored", "set", "none"])
+                + conn_runs("c23", tier, seed, 200, 0, quick_configs=["set", "default", "pending"]))
     runs = [Run(cm, ["--seed=%d" % seed, "--families=1", "--ops=100000"], env=ENV, timeout=3000)]
     runs += [Run(cm, ["--seed=%d" % (seed * 50 + i), "--families=0", "--ops=660000"], env=ENV, timeout=3000) for i in range(1, 16)]
-    return runs + conn_runs("c20", tier, seed, 0, 1200, rounds=2, extra=["--wrap_every=40"])
+    return (runs + conn_runs("c20", tier, seed, 0, 1200, rounds=2, extra=["--wrap_every=40"])
+            + conn_runs("c23", tier, seed, 0, 1200, rounds=1))
 
 
 def plan_c21(tier, seed):
